@@ -248,6 +248,10 @@ class FG:
         """exact cavity message arriving at tensor `tid` along label `ix`: contraction of everything
         behind `ix` as seen from `tid` (acyclic factor graph), open on `ix`"""
         start = [t for t in self.ind_map[ix] if t != tid]
+        if not start:
+            # a label of `tid` alone (open leg summed over): nothing behind it, the cavity message is uniform
+            a, inds = self.terms[tid]
+            return np.ones(a.shape[inds.index(ix)])
         return self.sop(self.reach(start, blocked_tids=(tid,)), (ix,))
 
     def msg_from_tensor(self, tid, ix):
@@ -278,6 +282,15 @@ GEOMS1 = {
     # hyper flavours only: label x on three tensors (incidence graph still a tree)
     "hyper3": [("A", "x"), ("B", "xy"), ("C", "x"), ("D", "y")],
     "hyperstar": [("A", "xy"), ("B", "x"), ("C", "xz"), ("D", "z"), ("E", "y")],
+    # open legs (labels on exactly one tensor, summed over by the 1-norm value: contract(all, output_inds=())): on a leaf, on an
+    # inner tensor, several at once, next to a hyper label -- flavours that accept them: HD1BP, HV1BP
+    "open_leaf": [("A", "ap"), ("B", "ab"), ("C", "b")],
+    "open_inner": [("A", "a"), ("B", "abq"), ("C", "b")],
+    "open_multi": [("A", "apr"), ("B", "abq"), ("C", "bs")],
+    "open_hyper": [("A", "xp"), ("B", "xy"), ("C", "x"), ("D", "yq")],
+    # forests with an isolated component that is a single tensor: a scalar (every 1-norm flavour) / a bond-free tensor with open legs
+    "iso_scalar": [("A", "a"), ("B", "a"), ("S", "")],
+    "iso_open": [("A", "a"), ("B", "ab"), ("C", "b"), ("T", "pq"), ("S", "")],
 }
 
 
@@ -327,11 +340,11 @@ def d1_messages_exact(mk, bp, fg, tag):
 
 
 _D1 = []
-for g_ in ("path3", "star4", "path4", "forest"):
+for g_ in ("path3", "star4", "path4", "forest", "iso_scalar"):
     for nz_ in ("L1", "sum", "L2", "Linf"):
         for up_ in ("sequential", "parallel"):
             quick = (g_ in ("path3", "star4") and nz_ in ("L1", "sum")) or (g_ in ("path4", "forest") and nz_ == "L1" and up_ == "sequential") \
-                or (g_ == "path3" and up_ == "sequential")
+                or (g_ == "path3" and up_ == "sequential") or (g_ == "iso_scalar" and (nz_, up_) in (("L1", "sequential"), ("sum", "parallel")))
             _D1.append({"geom": g_, "norm": nz_, "update": up_, "_tiers": _Q if quick else _T})
 
 
@@ -547,7 +560,15 @@ def marginal_goals(mk, tn, messages, fg, tag):
         mk.eq(f"{tag}: compute_index_marginal({ix}) agrees", bp_common.compute_index_marginal(tn, ix, messages), p)
     tags = {tid: sorted(t.tags)[0] for tid, t in tn.tensor_map.items()}
     for tid, t in tn.tensor_map.items():
-        p = bp_common.compute_tensor_marginal(tn, tid, messages)
+        own = [ix for ix in t.inds if len(tn.ind_map[ix]) == 1]
+        try:
+            p = bp_common.compute_tensor_marginal(tn, tid, messages)
+        except TypeError as e:
+            if not own:
+                raise
+            # rejection, no wrong value: the product over the *other* tensors on a label is taken without an initial value
+            mk.note(f"compute_tensor_marginal rejects a tensor that has a label of its own ({own}): {type(e).__name__}: {e}"[:200])
+            continue
         mk.same(f"{tag}: tensor marginal shape", tuple(np.shape(p)), tuple(t.shape))
         mk.eq(f"{tag}: tensor marginal of {tags[tid]} * Z == exact unnormalised marginal over its labels", p * z0, fg.marg(t.inds))
 
@@ -763,6 +784,8 @@ LAZY1 = {
     "lmulti": {"I0": [("A", "ac")], "I1": [("B", "ap"), ("B2", "cpb")], "I2": [("C", "b")]},
     "lstar4": {"I0": [("X", "abp"), ("X2", "pc")], "I1": [("A", "a")], "I2": [("B", "b")], "I3": [("C", "c")]},
     "lforest": {"I0": [("A", "a")], "I1": [("B", "a")], "I2": [("C", "bp"), ("C2", "p")], "I3": [("D", "b")], "I4": [("E", "")]},
+    # isolated sites: one with inner bonds only, one scalar
+    "liso": {"I0": [("A", "a")], "I1": [("B", "a")], "I2": [("C", "pq"), ("C2", "p"), ("C3", "q")], "I3": [("E", "")]},
 }
 
 
@@ -784,10 +807,11 @@ def lazy_messages_exact(mk, bp, tn, fg, tag):
 
 
 _L1 = []
-for g_ in ("lpath3", "lmulti", "lstar4", "lforest"):
+for g_ in ("lpath3", "lmulti", "lstar4", "lforest", "liso"):
     for nz_ in ("L1", "sum", "L2"):
         for up_ in ("sequential", "parallel"):
-            quick = (g_ in ("lpath3", "lmulti") and nz_ == "L1") or (g_ == "lstar4" and nz_ == "sum" and up_ == "sequential")
+            quick = (g_ in ("lpath3", "lmulti") and nz_ == "L1") or (g_ == "lstar4" and nz_ == "sum" and up_ == "sequential") \
+                or (g_ == "liso" and (nz_, up_) in (("L1", "sequential"), ("sum", "parallel"))) or (g_ == "lforest" and (nz_, up_) == ("L1", "parallel"))
             _L1.append({"geom": g_, "norm": nz_, "update": up_, "_tiers": _Q if quick else _T})
 
 
@@ -962,12 +986,14 @@ GEOMS2 = {
     "star4": (4, [(0, 1), (0, 2), (0, 3)]),
     "path4": (4, [(0, 1), (1, 2), (2, 3)]),
     "forest": (4, [(0, 1), (2, 3)]),
+    # forest with an isolated site (physical label only) and a free scalar tensor
+    "iso": (3, [(0, 1)]),
 }
 
 
 # physical dimensions (kept small on the 4-tensor receivers: the value goals expand polynomials of degree 2 * #tensors)
 PHYS2 = {"pair": {0: 2, 1: 2}, "path3": {0: 2, 1: 2, 2: 2}, "star4": {0: 1, 1: 2, 2: 1, 3: 1}, "path4": {0: 2, 1: 1, 2: 1, 3: 2},
-         "forest": {0: 2, 1: 2, 2: 2, 3: 2}}
+         "forest": {0: 2, 1: 2, 2: 2, 3: 2}, "iso": {0: 2, 1: 2, 2: 2}}
 
 
 def build2(mk, geom, kind="pos", D=2, d=2, phys=None):
@@ -982,6 +1008,8 @@ def build2(mk, geom, kind="pos", D=2, d=2, phys=None):
         di = (phys or PHYS2[geom]).get(i, d)
         shape = (D,) * len(inds[i]) + (di,)
         ts.append(qtn.Tensor(arr(mk, f"T{i}", shape, kind), tuple(inds[i]) + (f"k{i}",), tags=[f"I{i}"]))
+    if geom == "iso":
+        ts.append(qtn.Tensor(arr(mk, "S", (), kind), (), tags=["S"]))
     tn = qtn.TensorNetworkGenVector.from_TN(qtn.TensorNetwork(ts), site_tag_id="I{}", site_ind_id="k{}", sites=tuple(range(n)))
     return tn, n
 
@@ -1043,11 +1071,11 @@ def d2_local_product(mk, label, bp, fg, N2):
 NORMS2 = {"L1": "L1", "L2": None, "trace": ntrace}
 
 _D2 = []
-for g_ in ("path3", "star4", "path4", "forest"):
+for g_ in ("path3", "star4", "path4", "forest", "iso"):
     for nz_ in ("L1", "trace", "L2"):
         for up_ in ("sequential", "parallel"):
             quick = (g_ == "path3" and nz_ in ("L1", "trace")) or (g_ == "star4" and nz_ == "L1" and up_ == "sequential") \
-                or (g_ == "path3" and nz_ == "L2" and up_ == "sequential")
+                or (g_ == "path3" and nz_ == "L2" and up_ == "sequential") or (g_ == "iso" and (nz_, up_) in (("L1", "sequential"), ("trace", "parallel")))
             _D2.append({"geom": g_, "norm": nz_, "update": up_, "_tiers": _Q if quick else _T})
 
 
@@ -1146,6 +1174,8 @@ LAZY2 = {
     "lpath3": {"I0": [("T0", "ap", 1), ("T0b", "p", 0)], "I1": [("T1", "ab", 2)], "I2": [("T2", "b", 1)]},
     "lmulti": {"I0": [("T0", "ac", 2)], "I1": [("T1", "acb", 1)], "I2": [("T2", "b", 1)]},
     "lstar4": {"I0": [("T0", "abc", 1)], "I1": [("T1", "a", 2)], "I2": [("T2", "bp", 1), ("T2b", "p", 0)], "I3": [("T3", "c", 1)]},
+    # isolated sites: physical label only / inner bond only / scalar
+    "liso": {"I0": [("T0", "a", 2)], "I1": [("T1", "a", 2)], "I2": [("T2", "", 2)], "I3": [("T3", "p", 1), ("T3b", "p", 0)], "I4": [("T4", "", 0)]},
 }
 LAZY2_DIMS = {"lstar4": {"c": 1}}      # bond c of the star has dimension 1
 
@@ -1175,10 +1205,11 @@ def l2_messages_exact(mk, bp, tn, fg, tag):
 
 
 _L2 = []
-for g_ in ("lpath3", "lmulti", "lstar4"):
+for g_ in ("lpath3", "lmulti", "lstar4", "liso"):
     for nz_ in ("L1", "trace", "L2"):
         for up_ in ("sequential", "parallel"):
-            quick = (g_ == "lpath3" and nz_ == "L1" and up_ == "sequential") or (g_ == "lmulti" and nz_ == "trace" and up_ == "parallel")
+            quick = (g_ == "lpath3" and nz_ == "L1" and up_ == "sequential") or (g_ == "lmulti" and nz_ == "trace" and up_ == "parallel") \
+                or (g_ == "liso" and (nz_, up_) in (("L1", "sequential"), ("trace", "parallel")))
             _L2.append({"geom": g_, "norm": nz_, "update": up_, "_tiers": _Q if quick else _T})
 
 
@@ -1202,8 +1233,18 @@ def l2bp_exact(mk, geom, norm, update):
         l2_messages_exact(mk, bp, bp.tn, fg, f"L2BP lc={lc}")
     mk.eq("L2BP.contract(strip_exponent=True) == <psi|psi>", value(bp.contract(strip_exponent=True)), N2)
     for i in range(len(sites)):
+        if f"k{i}" not in tn.ind_map:
+            continue          # site without a physical label
         rho_w = fg.rdm((f"k{i}",))
-        mk.eq(f"L2BP.partial_trace({i}) (normalized) * <psi|psi> == exact reduced density matrix", bp.partial_trace(i) * N2, rho_w)
+        try:
+            rho = bp.partial_trace(i)
+        except KeyError as e:
+            if sites[i] in bp.neighbors:
+                raise
+            # rejection, no wrong value: partial_trace looks the site up among the sites that have neighbours
+            mk.note(f"L2BP.partial_trace({i}) of an isolated site is not offered (KeyError {e})")
+            continue
+        mk.eq(f"L2BP.partial_trace({i}) (normalized) * <psi|psi> == exact reduced density matrix", rho * N2, rho_w)
         prop_goal(mk, f"L2BP.partial_trace({i}, normalized=False) proportional to the exact reduced density matrix",
                   bp.partial_trace(i, normalized=False), rho_w)
     if norm == "L1":
@@ -1290,7 +1331,8 @@ def dense_unchanged_goal(mk, label, tn2, n, psi, nbonds):
     mk.eq(label if nbonds == 1 else "[numeric-only] " + label, dense_state(tn2, n), psi)
 
 
-_DG = [{"op": o, "geom": g, "kind": k, "_tiers": _Q if (g, k) == ("pair", "real") and o in ("gauge_temp", "compress") else _T}
+# quick: a real and a complex cell of every operation (transposes vs conjugate transposes of the gauges only differ on complex data)
+_DG = [{"op": o, "geom": g, "kind": k, "_tiers": _Q if ((g, k) == ("pair", "real") and o in ("gauge_temp", "compress")) or (g, k) == ("pair", "cplx") else _T}
        for o in ("gauge_temp", "gauge_insert_raw", "gauge_insert_inverse", "compress", "gauge_symmetric")
        for g, k in (("pair", "pos"), ("pair", "real"), ("pair", "cplx"), ("path3", "real"))
        if not (o in ("compress", "gauge_symmetric") and k == "pos")]      # (positive = invertible symbols blow up the quotient closure)
@@ -1356,6 +1398,8 @@ def d2bp_gauge_compress(mk, op, geom, kind):
 
 
 _DE = [{"entry": e, "geom": "pair", "kind": "real", "_tiers": _Q if e in ("compress_d2bp", "gauge_all_belief_propagation") else _T}
+       for e in ("compress_d2bp", "gauge_d2bp", "gauge_all_belief_propagation", "compress_l2bp", "L2BP.compress")] + \
+      [{"entry": e, "geom": "pair", "kind": "cplx"}
        for e in ("compress_d2bp", "gauge_d2bp", "gauge_all_belief_propagation", "compress_l2bp", "L2BP.compress")] + \
       [{"entry": e, "geom": "path3", "kind": "real", "_tiers": _T} for e in ("compress_d2bp", "compress_l2bp")]
 
@@ -1505,6 +1549,64 @@ def hyper_dims(mk, flavour, geom):
     hyper_messages_exact(mk, msgs, bp.tn, fg, f"{flavour} D=3")
     marginal_goals(mk, bp.tn, msgs, fg, f"{flavour} D=3")
     mk.eq(f"{flavour}.contract() with bond dimension 3 == exact value", bp.contract(), Z)
+
+
+# ---------------------------------------------------------------------- open legs and isolated tensors (hyper flavours)
+
+_OI = []
+for g_ in ("open_leaf", "open_inner", "open_multi", "open_hyper", "iso_open", "iso_scalar"):
+    for f_, up_ in (("HD1BP", "sequential"), ("HD1BP", "parallel"), ("HV1BP", "parallel")):
+        for k_ in ("pos", "cplx"):
+            if k_ == "cplx" and g_ not in ("open_multi", "iso_open"):
+                continue
+            quick = (f_, up_) != ("HD1BP", "parallel") or g_ in ("open_multi", "iso_open")
+            _OI.append({"flavour": f_, "geom": g_, "update": up_, "kind": k_, "_tiers": _Q if quick else _T})
+
+
+@obligation(PROP, params=_OI, wall_s=400, timeout_s=500)
+def open_and_isolated(mk, flavour, geom, update, kind):
+    """hyper flavours on trees with open legs (labels on exactly one tensor: the value sums over them, the message a lone
+    label returns is uniform) and on forests with an isolated tensor (bond-free with open legs / a scalar): value, messages in
+    both directions, index and tensor marginals -- the same goals as on closed trees.  (D1BP documents 'no dangling indices' and
+    L1BP forms its site values without output labels: open legs are outside their domain; isolated scalars / sites are covered
+    in d1bp_exact[iso_scalar] / l1bp_exact[liso, lforest].)"""
+    mk.encodes(hd1bp.HD1BP, hd1bp.HD1BP.iterate, hd1bp.HD1BP.contract, hd1bp.contract_hd1bp, hd1bp.compute_all_hyperind_messages_prod,
+               hd1bp.compute_all_tensor_messages_tree, hv1bp.HV1BP, hv1bp.HV1BP.iterate, hv1bp.HV1BP.contract, hv1bp.HV1BP.contract_dense,
+               hv1bp.contract_hv1bp, hv1bp._compute_all_hyperind_messages_prod_batched, bp_common.initialize_hyper_messages,
+               bp_common.contract_hyper_messages, bp_common.compute_index_marginal, bp_common.compute_tensor_marginal)
+    tn = build1(mk, geom, kind)
+    fg = FG(tn)
+    mk.same("receiver is acyclic (incidence graph)", fg.is_tree(), True)
+    mk.same("receiver has a label on exactly one tensor or a label-free tensor",
+            any(len(ts) == 1 for ts in fg.ind_map.values()) or any(not inds for _, inds in fg.terms.values()), True)
+    Z = fg.z()
+    ro = run_opts(mk, tn, hyper=True)
+    if flavour == "HD1BP":
+        kw = dict(normalize=nl1 if kind == "pos" else nsum, distance=sdist, update=update, smudge_factor=0.0)
+        mk.eq(f"contract_hd1bp({geom}, update={update}) == exact value (open legs summed)", hd1bp.contract_hd1bp(tn, **kw, **ro), Z)
+        bp = hd1bp.HD1BP(tn, **kw)
+        info = {}
+        bp.run(info=info, **ro)
+        msgs = bp.messages
+    else:
+        kw = dict(normalize=l1_batched if kind == "pos" else nsum_batched, distance=sdist, smudge_factor=0.0)
+        init = bp_common.initialize_hyper_messages(tn, smudge_factor=0.0)
+        mk.eq(f"contract_hv1bp({geom}) == exact value (open legs summed)", hv1bp.contract_hv1bp(tn, messages=dict(init), **kw, **ro), Z)
+        bp = hv1bp.HV1BP(tn, messages=dict(init), **kw)
+        info = {}
+        bp.run(info=info, **ro)
+        msgs = bp.get_messages_dense()
+        mk.eq("HV1BP.contract_dense() == exact value", bp.contract_dense(), Z)
+    converged_goal(mk, "last round changed nothing (max_mdiff == 0)", info)
+    hyper_messages_exact(mk, msgs, bp.tn, fg, flavour)
+    mk.eq(f"{flavour}.contract() == exact value", bp.contract(), Z)
+    marginal_goals(mk, bp.tn, msgs, fg, flavour)
+    if not mk.sym:
+        if flavour == "HD1BP":
+            v = hd1bp.contract_hd1bp(tn, update=update, tol=1e-13, max_iterations=80)
+        else:
+            v = hv1bp.contract_hv1bp(tn, tol=1e-13, max_iterations=80)
+        mk.eq(f"[numeric-only] contract_{flavour.lower()} with library defaults == exact value", v, Z)
 
 
 # ---------------------------------------------------------------------- damping convention
